@@ -3,6 +3,7 @@ package pcache
 import (
 	"context"
 
+	"github.com/ipni/go-libipni/find/model"
 	"github.com/libp2p/go-libp2p/core/peer"
 )
 
@@ -50,4 +51,51 @@ func VerifC07_RaceFreeReads() {
 	<-done
 	verif_Reach("both done")
 	verif_Assert(w.pc.Len() >= 0, "the cache is usable after concurrent reads and writes")
+}
+
+// C07 (every read observes the cache as of some completed update): a listing
+// that runs while a writer merges the update map into a rebuilt main map still
+// contains every provider that was cached before and after the update.
+func VerifC07_ListVsMerge() {
+	old := c06pids
+	c06pids = []peer.ID{"A", "B", "C"}
+	defer func() { c06pids = old }()
+	w := c06new()
+	set := func(present ...bool) {
+		for i, p := range present {
+			w.srcs[0].content[c06pids[i]] = c06entry{present: p, ti: 1}
+			w.srcs[1].content[c06pids[i]] = c06entry{}
+		}
+		w.cx.cancelled = false
+		verif_Assume(w.pc.Refresh(w.cx) == nil)
+	}
+	set(true, false, false) // A: merged into the (empty) main map
+	set(true, true, false)  // B: kept in the update map
+	verif_Assume(len(w.pc.List()) == 2)
+	writer := verif_Choose("writer", 0, 1)
+	done := make(chan struct{}, 2)
+	var listed []*model.ProviderInfo
+	go func() {
+		listed = w.pc.List()
+		done <- struct{}{}
+	}()
+	go func() {
+		if writer == 0 {
+			set(true, true, true) // C appears: the update map is merged into a new main map
+		} else {
+			w.srcs[0].content["C"] = c06entry{present: true, ti: 1}
+			_, _ = w.pc.Get(context.Background(), "C") // a lookup miss that crosses the merge threshold
+		}
+		done <- struct{}{}
+	}()
+	<-done
+	<-done
+	verif_Reach("both done")
+	seen := map[peer.ID]int{}
+	for _, pi := range listed {
+		seen[pi.AddrInfo.ID]++
+	}
+	verif_Assert(seen["A"] == 1 && seen["B"] == 1, "a listing concurrent with a merge contains every provider cached before and after it, once")
+	verif_Assert(len(listed) == 2 || (len(listed) == 3 && seen["C"] == 1), "the listing is the cache as of before or after the update")
+	verif_Assert(len(w.pc.List()) == 3, "afterwards all three are listed")
 }
